@@ -1560,6 +1560,7 @@ package adaptation
 //@   props C19
 //@   requires r != nil && !held(r.Mutex) && r.updateFn != nil
 //@   modifies lock(r.Mutex), calls("func:adaptation.Adaptation.updateFn")
+//@   at call func:adaptation.Adaptation.updateFn assert held(r.Mutex)
 //@   ensures [once]   ncalls("func:adaptation.Adaptation.updateFn") == old(ncalls("func:adaptation.Adaptation.updateFn")) + 1
 //@   ensures [args]   callarg("func:adaptation.Adaptation.updateFn", old(ncalls("func:adaptation.Adaptation.updateFn")), 2) == req
 //@   ensures [result] result.0 == callret("func:adaptation.Adaptation.updateFn", old(ncalls("func:adaptation.Adaptation.updateFn")), 0) && result.1 == callret("func:adaptation.Adaptation.updateFn", old(ncalls("func:adaptation.Adaptation.updateFn")), 1)
